@@ -210,6 +210,9 @@ class Unit:
 
     def clause_text(self, o):
         lines = self.clauses.get(o.get('file', ''))
+        t = core.nth_clause(lines, o)
+        if t:
+            return t
         try:
             return lines[int(o['line']) - 1].strip() if lines else None
         except (ValueError, IndexError):
